@@ -617,6 +617,15 @@ def _ctor_unit():
     return _ctor.unit_constructor([(DQN, {}, ("gamma",)), (SAC, {}, ("gamma", "initial_alpha"))])
 
 
-UNITS = [("constructor", _ctor_unit()), ("stored-flags:box", _stored_flags("box")), ("stored-flags:discrete", _stored_flags("discrete")), ("dqn-loss", unit_dqn_loss), ("dqn-grad", unit_dqn_grad), ("call-sites", unit_call_sites), ("sac:autotune", unit_sac(True)), ("sac:fixed-alpha", unit_sac(False)),
+def _collected_flags(cfg):
+    """the flags a target reads are the ones the collection step stored: done = terminal or truncated, timeout = truncated and not terminal - a step that terminates while the time
+    limit expires is a termination and must not be bootstrapped (off-policy step contract stated in C05)"""
+    def unit(S):
+        from contracts import C05
+        C05.unit_step(cfg)(S)
+    return unit
+
+
+UNITS = [("constructor", _ctor_unit()), ("collected-flags:SAC", _collected_flags("SAC/box/TimeLimit")), ("collected-flags:DQN", _collected_flags("DQN/discrete/TimeLimit")), ("stored-flags:box", _stored_flags("box")), ("stored-flags:discrete", _stored_flags("discrete")), ("dqn-loss", unit_dqn_loss), ("dqn-grad", unit_dqn_grad), ("call-sites", unit_call_sites), ("sac:autotune", unit_sac(True)), ("sac:fixed-alpha", unit_sac(False)),
          ("sac:autotune:B2", unit_sac(True, 2)), ("sac:fixed-alpha:B4", unit_sac(False, 4))]
 THOROUGH_ONLY = {"sac:autotune:B2", "sac:fixed-alpha:B4"}
